@@ -25,9 +25,9 @@ func c02RuleText(kind, i int) string {
 	id := itoa(i)
 	switch kind {
 	case rBegin:
-		return "BEGIN { print 'B" + id + "', $ is null }"
+		return "BEGIN { print 'B" + id + "', $ is null; $ = 'set in BEGIN' }" // a later rule must not see this
 	case rEnd:
-		return "END { print 'E" + id + "', $ is null }"
+		return "END { print 'E" + id + "', $ is null; $ = 'set in END' }"
 	case rBeginFile:
 		return "BEGINFILE { print 'BF" + id + "', $file, $ is array, $ is object; if ($.fx) exit; print 'bf" + id + "' }"
 	case rEndFile:
@@ -291,4 +291,50 @@ func VHC02Selectors() {
 	want += "E\n"
 	vh.Reach("selectors evaluated")
 	vh.Assert(k == OK && out.String() == want, "C02: every value is processed once per selector, in the order given, $index counting from 0 in every selected array")
+}
+
+// VHC02Jumps: `exit` and `next` raised inside a function that is called from any
+// expression position (print argument, call argument, array / object item, operand,
+// condition, index ...) act exactly like the statement: exit ends the run successfully
+// without running anything further, next abandons the remaining rules for this element
+// only.
+func VHC02Jumps() {
+	slot := c11Slots[vh.Choose("slot", len(c11Slots))]
+	if len(slot) > 5 && (slot[:5] == "BEGIN" || slot[:5] == "{ pri" && false) {
+		return
+	}
+	for i := 0; i+9 <= len(slot); i++ {
+		if slot[i:i+9] == "BEGINFILE" || i+7 <= len(slot) && slot[i:i+7] == "ENDFILE" {
+			return // next / exit in BEGINFILE and ENDFILE rules: VHC02Schedule
+		}
+	}
+	jump := []string{"exit", "next"}[vh.Choose("jump", 2)]
+	fire := vh.Bool("fire")
+	prog := "function jmp(x) { if (x) " + jump + "\nreturn 1 }\n" + replaceAll(slot, "@", "jmp($.x)") + "\n{ print 'second' }\nEND { print 'end' }"
+	rec := func(x bool) any { return map[string]any{"x": x, "arr": []any{1.0, 2.0}} }
+	out, k := runProg(prog, []any{rec(fire), rec(false)})
+	ref, kr := runProg(prog, []any{rec(false)})
+	vh.Reach("jump placed")
+	vh.Assert(k == OK && kr == OK, "C02: exit / next raised in a called function is not an error, wherever the call sits: "+lbl(slot))
+	if !fire {
+		vh.Assert(len(out) > len(ref) && out[len(out)-len(ref):] == ref, "C02: without the jump every element is processed alike: "+lbl(slot))
+		return
+	}
+	if jump == "exit" {
+		vh.Assert(c11Stopped(out) && !contains(out, "second") && !contains(out, "end"), "C02: exit inside a called function ends the run at once, END included: "+lbl(slot))
+		return
+	}
+	// next: the first element stops at the jump, the second one is processed in full, END runs
+	vh.Assert(len(out) >= len(ref) && out[len(out)-len(ref):] == ref, "C02: after next the following element is processed in full and END runs: "+lbl(slot))
+	head := out[:len(out)-len(ref)]
+	vh.Assert(c11Stopped(head) && !contains(head, "second"), "C02: next inside a called function abandons the remaining rules for this element: "+lbl(slot))
+}
+
+func contains(s, sub string) bool {
+	for i := 0; i+len(sub) <= len(s); i++ {
+		if s[i:i+len(sub)] == sub {
+			return true
+		}
+	}
+	return false
 }
